@@ -20,7 +20,7 @@ from typing import Any
 
 from .context import Analysis
 from .loader import FuncInfo, const_eval
-from .minieval import MiniEval, Obj, Raised, Unsupported, _Return
+from .minieval import MiniEval, Obj, Raised, Unsupported, _Break, _Continue, _Return
 
 
 class ClassRef:
@@ -591,17 +591,36 @@ class ModelInterp(MiniEval):
             for it in s.items:
                 cm = self.expr(it.context_expr, env)
                 entered.append(cm)
+                val = cm
+                if isinstance(cm, Stub) and self.a.ct.lookup(cm._cls, '__enter__') is not None and '__enter__' not in cm._attrs:
+                    # an instance of a repository class written as a context manager (__enter__ / __exit__)
+                    val = self.call_bound(Bound(cm, self.a.ct.lookup(cm._cls, '__enter__')), [], {})
                 if it.optional_vars is not None:
-                    self.assign(it.optional_vars, cm, env)
-            try:
-                self.block(s.body, env)
-            except Raised as r:
-                if not any(isinstance(cm, SuppressM) and cm.matches(self, r) for cm in entered):
-                    raise
-            finally:
+                    self.assign(it.optional_vars, val, env)
+
+            def _leave(exc):
+                suppressed = False
                 for cm in reversed(entered):
                     if isinstance(cm, ExitStackM):
                         cm.close(self)
+                    elif isinstance(cm, Stub) and '__exit__' not in cm._attrs and self.a.ct.lookup(cm._cls, '__exit__') is not None:
+                        r_ = self.call_bound(Bound(cm, self.a.ct.lookup(cm._cls, '__exit__')), [exc, exc, None] if exc is not None else [None, None, None], {})
+                        if exc is not None and r_:
+                            suppressed, exc = True, None
+                return suppressed
+            try:
+                self.block(s.body, env)
+            except Raised as r:
+                if any(isinstance(cm, SuppressM) and cm.matches(self, r) for cm in entered):
+                    _leave(None)
+                    return
+                if _leave(r):
+                    return
+                raise
+            except (_Return, _WithReturn, _Break, _Continue):
+                _leave(None)
+                raise
+            _leave(None)
             return
         if isinstance(s, ast.Assert):
             return
